@@ -66,4 +66,10 @@ TEXT.update({
   note="Partial as stated. Trusted: json.Unmarshal of defaults, reflect; canonical instances only.",
  ),
 })
+TEXT.update({
+ "C14": dict(
+  level="Theorems: the verdict is independent of the hash function (any seed, any process), is a function of the resolved schema and the JSON value alone (Validate returns the specification's unique answer), and Marshal's output is independent of the order in which any map is listed. Purity (nothing is written to the Schema tree, the loader's documents or the instance) and independence from the iteration order of instance and schema maps hold in the model by construction (immutable values, list order fixed) and are decided for the package by the correspondence family pure: reflection snapshots before/after, three Resolves, repeated and rebuilt-map validations, repeated Marshal, and a second process whose observation file must be byte-identical.",
+  note="Partial: order independence of Validate over map iteration is sampled, not proved; snapshots trust the reflection walk.",
+ ),
+})
 PENDING = {}
